@@ -676,3 +676,61 @@ def r18(ctx, R):
     guards = [ast.unparse(i.test) for i in ast.walk(fn) if isinstance(i, ast.If) and any(isinstance(c, ast.Call) and isinstance(c.func, ast.Attribute) and c.func.attr == 'post_step_processing' for c in ast.walk(i))]
     inner = [g for g in guards if 'status' in g]
     R.check(inner == ['not self.S.status.restart'], 'controller_MPI.run :: post_step_processing under `not self.S.status.restart`', CCD + 'controller_MPI.py:controller_MPI.run', ['not self.S.status.restart'], inner)
+
+
+def none_guard_contradictions(fn):
+    """Engler-style contradiction: under `if X is None:` (or in the else-arm of `if X is not None:`) X is dereferenced (X.attr / X(..) / X[..])
+    before it is rebound -> [(lineno, text)]; also returns the number of None-guards looked at"""
+    hits, guards = [], 0
+
+    def deref(stmts, name):
+        for st in stmts:
+            for n in ast.walk(st):
+                if isinstance(n, (ast.Attribute, ast.Subscript)) and isinstance(n.ctx, ast.Load) and ast.unparse(n.value) == name:
+                    return n.lineno, ast.unparse(st)[:90]
+                if isinstance(n, ast.Call) and ast.unparse(n.func) == name:
+                    return n.lineno, ast.unparse(st)[:90]
+            if any(ast.unparse(t) == name for a in ast.walk(st) if isinstance(a, ast.Assign) for t in a.targets):
+                return None
+        return None
+
+    for i in ast.walk(fn):
+        if not isinstance(i, ast.If):
+            continue
+        t = i.test
+        terms = t.values if isinstance(t, ast.BoolOp) and isinstance(t.op, ast.And) else [t]
+        for c in terms:
+            if isinstance(c, ast.Compare) and len(c.ops) == 1 and isinstance(c.comparators[0], ast.Constant) and c.comparators[0].value is None and isinstance(c.left, (ast.Name, ast.Attribute)):
+                name = ast.unparse(c.left)
+                guards += 1
+                if isinstance(c.ops[0], ast.Is):
+                    r = deref(i.body, name)
+                elif isinstance(c.ops[0], ast.IsNot) and len(terms) == 1:
+                    r = deref(i.orelse, name)
+                else:
+                    r = None
+                if r:
+                    hits.append((name,) + r)
+    return hits, guards
+
+
+@rule('C08', 'C08.R19', 'no request, communicator or buffer is used in the arm that has just established it is None: in the MPI-only classes (controller_MPI, the node-parallel sweepers, the MPI flavours of the convergence controllers, base_transfer_MPI) a name tested `is None` is not dereferenced in that arm before it is rebound (contradiction rule; this code cannot be executed in a sandbox without mpi4py, so no test here would see the AttributeError or the skipped Wait)', floor=6)
+def r19(ctx, R):
+    repo = ctx.repo
+    ctl = ast.parse('def f(self):\n    for req in self.req_send:\n        if req is None:\n            req.Wait()\n').body[0]
+    if len(none_guard_contradictions(ctl)[0]) != 1:
+        raise AnalysisError('C08.R19: the embedded control (Wait on a request that is None) is not recognised')
+    total = 0
+    for m, ci, fn in repo.all_functions():
+        rel = m.relpath
+        if not (rel.endswith('controller_MPI.py') or ('MPI' in (ci.name if ci else '') and 'nonmpi' not in ci.name.lower()) or rel.endswith(('BaseTransferMPI.py', 'generic_implicit_MPI.py', 'imex_1st_order_MPI.py'))):
+            continue
+        hits, guards = none_guard_contradictions(fn)
+        if not guards:
+            continue
+        total += guards
+        w = f'{rel}:{(ci.name + ".") if ci else ""}{fn.name}'
+        R.fn(w)
+        R.check(not hits, f'{(ci.name + ".") if ci else ""}{fn.name} :: {guards} None-guard(s): the guarded name is not used where it is None', w, 'no dereference of X under `X is None`', hits)
+    if total < 10:
+        raise AnalysisError(f'C08.R19: only {total} None-guards found in the MPI-only classes')
